@@ -80,7 +80,7 @@ REQUIRED_CLAUSES = ["args-unchanged", "module-tables-unchanged",
                     "total-on-domain", "result-finite-and-typed",
                     "illtyped->TypeError|ValueError", "copies-independent",
                     "out-of-range->TypeError|ValueError|value",
-                    "reused-argument-objects"]
+                    "reused-argument-objects", "results-own-their-state"]
 
 
 # ------------------------------------------------------------------ discovery
@@ -800,9 +800,75 @@ class Universe(object):
             mon.dev("equal-args-equal-results",
                     {"target": qual, "args": args,
                      "second_call_raised": repr(ex)})
+        self.scribble(target, res, rs, args, inst)
         self.reuse(target, args, inst)
         self.quiesce()
         return rs
+
+    def scribble(self, target, res, rs, args, inst):
+        """Results are values: after the caller has modified the returned
+        Angle / Epoch / list objects in place, the receiver is as it was and
+        the same call on equal arguments still returns what it returned."""
+        mon = self.mon
+        qual = target[0]
+        if target[3] == "__init__" or \
+                (inst is not None and qual.split(".", 1)[1] in MUTATORS):
+            return
+        argids = set(id(a) for a in args)
+        if inst is not None:
+            argids.add(id(inst))
+        n = [0]
+
+        def scrib(x, depth=0):
+            if depth > 4 or id(x) in argids:
+                return       # the argument itself handed back: caller's own
+            t = type(x).__name__
+            if t == "Angle":
+                x.set(123.456)
+                n[0] += 1
+            elif t == "Epoch":
+                x.set(2440000.5)
+                n[0] += 1
+            elif isinstance(x, list):
+                for v in x:
+                    scrib(v, depth + 1)
+                x.append(None)
+                n[0] += 1
+            elif isinstance(x, tuple):
+                for v in x:
+                    scrib(v, depth + 1)
+            elif isinstance(x, dict):
+                for v in x.values():
+                    scrib(v, depth + 1)
+        rbefore = snap(inst) if inst is not None else None
+        abefore = snap(args)
+        args3 = copy.deepcopy(args)
+        inst3 = copy.deepcopy(inst)
+        try:
+            scrib(res)
+        except Exception as ex:
+            mon.error("scribble " + qual, ex)
+            return
+        if not n[0]:
+            return
+        mon.evals += 1
+        self.calls += 1
+        mon.cls("result-modified-by-caller", (qual, rs))
+        ok = snap(args) == abefore and (inst is None
+                                        or snap(inst) == rbefore)
+        try:
+            if inst3 is not None:
+                res3 = ap(getattr(inst3, target[3]), args3)
+            else:
+                res3 = ap(resolve(target)[0], args3)
+            same = snap(res3) == rs
+        except Exception as ex:
+            same, res3 = False, repr(ex)
+        mon.check("results-own-their-state", ok and same,
+                  lambda: {"target": qual, "args": args3,
+                           "arguments_or_receiver_changed": not ok,
+                           "first_result": repr(rs)[:300],
+                           "after_result_was_modified": repr(res3)[:300]})
 
     def reuse(self, target, args, inst):
         """Argument objects with a history: the Angle / Epoch objects of the
